@@ -37,6 +37,8 @@ const (
 	vkFunc
 	vkIface
 	vkNone
+	vkChanRecv
+	vkChanSend
 )
 
 func vhTypeExpr(kind int) ast.Expr {
@@ -77,7 +79,11 @@ func vhTypeExpr(kind int) ast.Expr {
 	case vkMap:
 		return &ast.MapType{Key: id("string"), Value: id("int")}
 	case vkChan:
-		return &ast.ChanType{Value: id("int")}
+		return &ast.ChanType{Dir: ast.SEND | ast.RECV, Value: id("int")}
+	case vkChanRecv:
+		return &ast.ChanType{Dir: ast.RECV, Value: id("int")}
+	case vkChanSend:
+		return &ast.ChanType{Dir: ast.SEND, Value: id("int")}
 	case vkFunc:
 		return &ast.FuncType{}
 	default:
@@ -90,13 +96,30 @@ func vhWord(tag string) Arg {
 	return Arg{Value: v, IsPtr: vAnd(v > pointerFloor, v < pointerCeiling)}
 }
 
-func vhHexName(a *Arg) string { return fmt.Sprintf("0x%x", a.Value) }
+// vhHexName: how a pointer-like word is shown: its pseudo-name when
+// nameArguments gave it one, its value in hexadecimal otherwise.
+func vhHexName(a *Arg) string {
+	if a.Name != "" {
+		return a.Name
+	}
+	return fmt.Sprintf("0x%x", a.Value)
+}
+
+// vhMaybeName: nameArguments may have named any word in the pointer range that
+// recurs in the snapshot - whatever the parameter's real type is.
+func vhMaybeName(tag string, a *Arg) {
+	if vBool(tag + ".named") {
+		vAssume(a.IsPtr)
+		a.Name = "#7"
+	}
+}
 
 // vhExpect appends the words the runtime prints for one parameter of the given
 // kind holding an arbitrary value, and returns the rendering that is truthful
 // for that value.
 func vhExpect(tag string, kind int, words *[]Arg) string {
 	add := func(a Arg) *Arg {
+		vhMaybeName(tag+".w"+string(rune('0'+len(*words))), &a)
 		*words = append(*words, a)
 		return &(*words)[len(*words)-1]
 	}
@@ -167,7 +190,8 @@ func vhExpect(tag string, kind int, words *[]Arg) string {
 	case vkMap:
 		p := add(vhWord(tag + ".ptr"))
 		return fmt.Sprintf("map[string]int(%s)", vhHexName(p))
-	case vkChan:
+	case vkChan, vkChanRecv, vkChanSend:
+		// a channel of any direction is one pointer word
 		p := add(vhWord(tag + ".ptr"))
 		return fmt.Sprintf("chan int(%s)", vhHexName(p))
 	case vkFunc:
@@ -185,26 +209,36 @@ func vhExpect(tag string, kind int, words *[]Arg) string {
 // is the value passed, the raw words are untouched, nothing panics.
 //
 //verif:prop C19
-//verif:param k0 0..19
-//verif:param k1 quick=20,0,4,9,13,16 thorough=0..20
+//verif:param k0 0..19,21,22
+//verif:param k1 quick=20,0,4,9,13,16 thorough=0..22
 //verif:param k2 quick=20,3 thorough=20,0,3,10,14
 //verif:param recv 0..1
 func VH_C19_Decode(k0, k1, k2, recv int) {
 	f := &ast.FuncDecl{Name: &ast.Ident{Name: "f"}, Type: &ast.FuncType{Params: &ast.FieldList{}}}
 	var words []Arg
-	var want []string
+	var want, alt []string
 	if recv == 1 {
 		f.Recv = &ast.FieldList{List: []*ast.Field{{Names: []*ast.Ident{{Name: "r"}}, Type: &ast.StarExpr{X: &ast.Ident{Name: "R"}}}}}
 		p := vhWord("recv")
 		words = append(words, p)
 		want = append(want, fmt.Sprintf("*R(%s)", vhHexName(&p)))
+		alt = append(alt, "")
 	}
 	for i, k := range []int{k0, k1, k2} {
 		if k == vkNone {
 			continue
 		}
 		f.Type.Params.List = append(f.Type.Params.List, &ast.Field{Names: []*ast.Ident{{Name: "a"}}, Type: vhTypeExpr(k)})
-		want = append(want, vhExpect("p"+string(rune('0'+i)), k, &words))
+		w := vhExpect("p"+string(rune('0'+i)), k, &words)
+		want = append(want, w)
+		switch k {
+		case vkChanRecv:
+			alt = append(alt, fmt.Sprintf("<-chan int(%s)", vhHexName(&words[len(words)-1])))
+		case vkChanSend:
+			alt = append(alt, fmt.Sprintf("chan<- int(%s)", vhHexName(&words[len(words)-1])))
+		default:
+			alt = append(alt, "")
+		}
 	}
 	c := &Call{}
 	c.Args.Values = append([]Arg{}, words...)
@@ -219,7 +253,12 @@ func VH_C19_Decode(k0, k1, k2, recv int) {
 	vAssert(len(c.Args.Processed) == len(want), "one rendering per parameter")
 	for i := range want {
 		if i < len(c.Args.Processed) {
-			vAssert(c.Args.Processed[i] == want[i], "the rendered value is the value passed")
+			if alt[i] != "" {
+				// the type name may or may not show the channel's direction
+				vAssert(vOr(c.Args.Processed[i] == want[i], c.Args.Processed[i] == alt[i]), "the rendered value is the value passed")
+			} else {
+				vAssert(c.Args.Processed[i] == want[i], "the rendered value is the value passed")
+			}
 		}
 	}
 }
